@@ -16,7 +16,7 @@ def read(p):
 
 def token_names(gen_src):
     names = []
-    for m in re.finditer(r"\bToken::([A-Za-z_][A-Za-z0-9_]*)|\b(?:try_)?expect!\s*\(\s*([A-Za-z_][A-Za-z0-9_]*)\s*,", gen_src):
+    for m in re.finditer(r"\bToken::([A-Za-z_][A-Za-z0-9_]*)|\b(?:try_)?expect(?:_brk)?!\s*\(\s*([A-Za-z_][A-Za-z0-9_]*)\s*,", gen_src):
         nm = m.group(1) or m.group(2)
         if nm not in names and nm != "$token":
             names.append(nm)
